@@ -12,7 +12,7 @@ func (Scenario) Generate(rng *rand.Rand, focus, tier string) kernel.Plan {
 		"keyseed":   rng.Int63(),
 		"users":     rng.Int63n(2),
 		"vest_on":   kernel.B2I(focus == "C20" && kernel.Chance(rng, 0.75) || kernel.Chance(rng, 0.4)),
-		"vest_kind": rng.Int63n(8),
+		"vest_kind": rng.Int63n(9),
 		"vest_pool": rng.Int63n(64),
 	}
 	w := map[string]int{"regcoin": 8, "addcoin": 6, "regerc20": 6, "toggle": 4, "upderc20": 3, "param": 4, "convcoin": 16, "converc": 14,
